@@ -99,12 +99,12 @@ TABLE["C01"]["level_text"] += " Theorem C01_reach lifts this to the installed ma
 
 CNT_PIPE = {"name": "counter", "cmd": ["counter"], "n_quick": 150, "n_thorough": 3000, "timeout": 900, "timeout_thorough": 3400}
 TABLE["C06"] = {
-    "pipelines": [CNT_PIPE],
+    "pipelines": [CNT_PIPE, {"name": "arms", "kind": "armgen"}],
     "fail_keys": ["c06."],
     "trusted_base": TB_COMMON + ["AtomicUsize::fetch_add is atomic, so every thread interleaving is a linearisation (a list of calls)", "the real fake! macro and CallCountVerifier run through the shadow crate; panic messages classified by substring"],
-    "rule": "every N in 0..6 (0..64 thorough) x k in 0..N+2 matching calls with PRNG-inserted non-matching calls on one thread (exact sequence compared), then PRNG (N, k) split over 2-16 threads behind a barrier (counts, per-thread order, exit verdict compared); thorough adds a 16-thread 100k-call hammer; lines tagged life belong to C07. Distinct by full line; non-trivial = driver tag other than bad-line",
+    "rule": "every N in 0..6 (0..64 thorough) x k in 0..N+2 matching calls with PRNG-inserted non-matching calls on one thread (exact sequence compared), then PRNG (N, k) split over 2-16 threads behind a barrier (counts, per-thread order, exit verdict compared); thorough adds a 16-thread 100k-call hammer; lines tagged life belong to C07; plus, for every `times` arm of the macro found in macros.rs, the compiled instantiation driven through m^N x m m with admission, rejection and exit verdict judged against the counter of the common meaning (keys c06.arm-*). Distinct by full line; non-trivial = driver tag other than bad-line",
     "assumptions": ["atomicity of fetch_add", "panics in safe-ABI fakes unwind"],
-    "filter_prefix": ["cnt"],
+    "filter_prefix": ["cnt", "armrun"],
     "level_text": "Theorems over all N and all schedules (lists of calls = linearisations over any number of threads): a matching call is admitted iff fewer than N matching calls precede it (C06_admit), non-matching calls always panic and are never counted (C06_reject, C06_final), outcome counts depend only on k and N (C06_split), exit verdict panics iff k != N naming both and never while unwinding (C06_exit, tied to verifier.rs by the translator). Each macro arm is linked to this counter model by C08. Correspondence: real macro, real threads.",
     "level_note": "Trusted: Lean kernel, atomicity assumption, translator's reading of verifier.rs; liveness/fairness not claimed.",
 }
